@@ -11,11 +11,14 @@ import (
 	"github.com/google/go-cmp/cmp/cmpopts"
 	"golang.org/x/text/language"
 
+	"seehuhn.de/go/postscript/funit"
 	"seehuhn.de/go/sfnt/glyph"
+	"seehuhn.de/go/sfnt/opentype/anchor"
 	"seehuhn.de/go/sfnt/opentype/classdef"
 	"seehuhn.de/go/sfnt/opentype/coverage"
 	"seehuhn.de/go/sfnt/opentype/gdef"
 	"seehuhn.de/go/sfnt/opentype/gtab"
+	"seehuhn.de/go/sfnt/opentype/markarray"
 	"seehuhn.de/go/sfnt/parser"
 
 	"verif/explore"
@@ -302,6 +305,14 @@ func c08Info(tp gtab.Type, ll gtab.LookupList) *gtab.Info {
 
 // c08RoundTrip encodes and reads back an Info; refused=true when the encoder panics (refused loudly).
 func c08RoundTrip(c *explore.Ctx, sig string, info *gtab.Info, tp gtab.Type, desc any) {
+	c08RoundTripOpt(c, sig, info, tp, desc, false)
+}
+
+func c08RoundTripOnce(c *explore.Ctx, sig string, info *gtab.Info, tp gtab.Type, desc any) {
+	c08RoundTripOpt(c, sig, info, tp, desc, true)
+}
+
+func c08RoundTripOpt(c *explore.Ctx, sig string, info *gtab.Info, tp gtab.Type, desc any, once bool) {
 	for li, l := range info.LookupList {
 		for si, st := range l.Subtables {
 			var d, e int
@@ -331,6 +342,9 @@ func c08RoundTrip(c *explore.Ctx, sig string, info *gtab.Info, tp gtab.Type, des
 			c.Fail("C08.roundtrip", sig+" / "+diffSig(d), "the structure differs after Encode/Read (%d bytes); %v:\n%s", len(enc), desc, trimDiff(d))
 			return
 		}
+	}
+	if once {
+		return
 	}
 	// second generation: what the reader returns (e.g. empty but non-nil rule sets, normalised
 	// coverage and class tables) is a structure the library can represent, too
@@ -508,6 +522,216 @@ func c08BigSub(kind, size int) gtab.Subtable {
 	}
 }
 
+// c08Scaled builds the k-th subtable kind with n entries (for the sweep across the 64 KiB limit of the
+// 16-bit offsets inside one subtable).
+var c08ScaledKinds = []string{"GSUB1.2", "GSUB2.1", "GSUB3.1", "GSUB4.1 (two ligature sets)", "GSUB4.1 (one ligature per set)", "context format 1", "chained context format 1", "GPOS1.2", "GPOS2.1", "GPOS2.2", "GPOS4.1", "context format 2", "chained context format 2", "context format 3", "chained context format 3", "GSUB8.1", "GPOS3.1", "GPOS6.1"}
+
+func c08Scaled(k, n int) (gtab.Subtable, uint16, bool) {
+	g := func(i int) glyph.ID { return glyph.ID(1 + i) }
+	covN := func(n int) coverage.Table {
+		cov := coverage.Table{}
+		for i := 0; i < n; i++ {
+			cov[g(2*i)] = i
+		}
+		return cov
+	}
+	switch k {
+	case 0:
+		st := &gtab.Gsub1_2{Cov: covN(n)}
+		for i := 0; i < n; i++ {
+			st.SubstituteGlyphIDs = append(st.SubstituteGlyphIDs, g(i+3))
+		}
+		return st, 1, false
+	case 1:
+		st := &gtab.Gsub2_1{Cov: covN(n)}
+		for i := 0; i < n; i++ {
+			st.Repl = append(st.Repl, []glyph.ID{g(i), g(i + 1)})
+		}
+		return st, 2, false
+	case 2:
+		st := &gtab.Gsub3_1{Cov: covN(n)}
+		for i := 0; i < n; i++ {
+			st.Alternates = append(st.Alternates, []glyph.ID{g(i + 5), g(i)})
+		}
+		return st, 3, false
+	case 3:
+		st := &gtab.Gsub4_1{Cov: covN(2), Repl: make([][]gtab.Ligature, 2)}
+		for i := 0; i < n; i++ {
+			st.Repl[i%3/2] = append(st.Repl[i%3/2], gtab.Ligature{In: []glyph.ID{g(i)}, Out: g(i + 7)})
+		}
+		if len(st.Repl[1]) == 0 {
+			st.Repl[1] = []gtab.Ligature{{In: []glyph.ID{g(1)}, Out: g(2)}}
+		}
+		return st, 4, false
+	case 4:
+		st := &gtab.Gsub4_1{Cov: covN(n)}
+		for i := 0; i < n; i++ {
+			st.Repl = append(st.Repl, []gtab.Ligature{{In: []glyph.ID{g(i)}, Out: g(i + 7)}})
+		}
+		return st, 4, false
+	case 5:
+		st := &gtab.SeqContext1{Cov: covN(n)}
+		for i := 0; i < n; i++ {
+			st.Rules = append(st.Rules, []*gtab.SeqRule{{Input: []glyph.ID{g(i)}, Actions: []gtab.SeqLookup{{SequenceIndex: 1, LookupListIndex: 0}}}})
+		}
+		return st, 5, false
+	case 6:
+		st := &gtab.ChainedSeqContext1{Cov: covN(n)}
+		for i := 0; i < n; i++ {
+			st.Rules = append(st.Rules, []*gtab.ChainedSeqRule{{Backtrack: []glyph.ID{g(i + 1)}, Input: []glyph.ID{g(i)}, Lookahead: []glyph.ID{g(3)}, Actions: []gtab.SeqLookup{{SequenceIndex: 1, LookupListIndex: 0}}}})
+		}
+		return st, 6, false
+	case 7:
+		st := &gtab.Gpos1_2{Cov: covN(n)}
+		for i := 0; i < n; i++ {
+			st.Adjust = append(st.Adjust, &gtab.GposValueRecord{XAdvance: funit.Int16(i%100 + 1), XPlacement: 3})
+		}
+		return st, 1, true
+	case 8:
+		st := gtab.Gpos2_1{}
+		for i := 0; i < n; i++ {
+			st[glyph.Pair{Left: g(i % 40), Right: g(i / 40)}] = &gtab.PairAdjust{First: &gtab.GposValueRecord{XAdvance: funit.Int16(-1 - i%50)}}
+		}
+		return st, 2, true
+	case 9:
+		// an m x m class matrix, m*m about n
+		m := 1
+		for (m+1)*(m+1) <= n {
+			m++
+		}
+		st := &gtab.Gpos2_2{Cov: coverage.Set{}, Class1: classdef.Table{}, Class2: classdef.Table{}}
+		for i := 1; i < m; i++ {
+			st.Cov[g(i)] = true
+			st.Class1[g(i)] = uint16(i)
+			st.Class2[g(i+m)] = uint16(i)
+		}
+		st.Cov[g(0)] = true
+		for i := 0; i < m; i++ {
+			row := make([]*gtab.PairAdjust, m)
+			for j := range row {
+				row[j] = &gtab.PairAdjust{First: &gtab.GposValueRecord{XAdvance: funit.Int16(i - j + 1000)}}
+			}
+			st.Adjust = append(st.Adjust, row)
+		}
+		return st, 2, true
+	case 11, 12:
+		// n rules in the rule set of class 1
+		cls := classdef.Table{g(0): 1, g(1): 2}
+		if k == 11 {
+			st := &gtab.SeqContext2{Cov: covN(1), Input: cls, Rules: make([][]*gtab.ClassSeqRule, 3)}
+			for i := 0; i < n; i++ {
+				st.Rules[1] = append(st.Rules[1], &gtab.ClassSeqRule{Input: []uint16{uint16(i % 3), 1}, Actions: []gtab.SeqLookup{{SequenceIndex: 1, LookupListIndex: 0}}})
+			}
+			return st, 5, false
+		}
+		st := &gtab.ChainedSeqContext2{Cov: covN(1), Backtrack: cls, Input: cls, Lookahead: cls, Rules: make([][]*gtab.ChainedClassSeqRule, 3)}
+		for i := 0; i < n; i++ {
+			st.Rules[1] = append(st.Rules[1], &gtab.ChainedClassSeqRule{Backtrack: []uint16{1}, Input: []uint16{uint16(i % 3)}, Lookahead: []uint16{2}, Actions: []gtab.SeqLookup{{SequenceIndex: 1, LookupListIndex: 0}}})
+		}
+		return st, 6, false
+	case 13, 14, 15:
+		// n coverage tables of 8 glyphs each (format 1: 20 bytes)
+		sets := func(n, salt int) []coverage.Set {
+			var out []coverage.Set
+			for i := 0; i < n; i++ {
+				cs := coverage.Set{}
+				for j := 0; j < 8; j++ {
+					cs[g(3*j+(i+salt)%3+(i+salt)%7*30)] = true
+				}
+				out = append(out, cs)
+			}
+			return out
+		}
+		switch k {
+		case 13:
+			return &gtab.SeqContext3{Input: sets(n, 0), Actions: []gtab.SeqLookup{{SequenceIndex: 1, LookupListIndex: 0}}}, 5, false
+		case 14:
+			return &gtab.ChainedSeqContext3{Backtrack: sets(n/3, 1), Input: sets(n-n/3-n/3, 0), Lookahead: sets(n/3, 2), Actions: []gtab.SeqLookup{{SequenceIndex: 0, LookupListIndex: 0}}}, 6, false
+		default:
+			st := &gtab.Gsub8_1{Input: coverage.Table{g(0): 0, g(1): 1}, SubstituteGlyphIDs: []glyph.ID{g(5), g(6)}}
+			for _, cs := range sets(n/2, 1) {
+				st.Backtrack = append(st.Backtrack, cs.ToTable())
+			}
+			for _, cs := range sets(n-n/2, 2) {
+				st.Lookahead = append(st.Lookahead, cs.ToTable())
+			}
+			return st, 8, false
+		}
+	case 16:
+		st := &gtab.Gpos3_1{Cov: covN(n)}
+		for i := 0; i < n; i++ {
+			st.Records = append(st.Records, gtab.EntryExitRecord{Entry: anchor.Table{X: funit.Int16(i%100 + 1), Y: 2}, Exit: anchor.Table{X: 500, Y: funit.Int16(i%50 + 1)}})
+		}
+		return st, 3, true
+	case 17:
+		st := &gtab.Gpos6_1{Mark1Cov: coverage.Table{g(0): 0, g(1): 1}, Mark2Cov: coverage.Table{},
+			Mark1Array: []markarray.Record{{Class: 0, Table: anchor.Table{X: 1, Y: 2}}, {Class: 1, Table: anchor.Table{X: 3, Y: 4}}}}
+		for i := 0; i < n; i++ {
+			st.Mark2Cov[g(2+i)] = i
+			st.Mark2Array = append(st.Mark2Array, []anchor.Table{{X: funit.Int16(i%300 + 1), Y: 700}, {X: 5, Y: funit.Int16(-1 - i%200)}})
+		}
+		return st, 6, true
+	default:
+		// n base glyphs x 2 mark classes
+		st := &gtab.Gpos4_1{MarkCov: coverage.Table{g(0): 0, g(1): 1}, BaseCov: coverage.Table{},
+			MarkArray: []markarray.Record{{Class: 0, Table: anchor.Table{X: 1, Y: 2}}, {Class: 1, Table: anchor.Table{X: 3, Y: 4}}}}
+		for i := 0; i < n; i++ {
+			st.BaseCov[g(2+i)] = i
+			st.BaseArray = append(st.BaseArray, []anchor.Table{{X: funit.Int16(i%300 + 1), Y: 700}, {X: 5, Y: funit.Int16(-1 - i%200)}})
+		}
+		return st, 4, true
+	}
+}
+
+// the 64 KiB limit inside one subtable: entry counts around the point where the subtable's size crosses 0xFFFF
+func c08SubtableLimit(r *run.Run) {
+	window := 6
+	if !r.Quick() {
+		window = 40
+	}
+	// the entry count at which the encoded size first exceeds 0xFFFF, per kind (by bisection on encodeLen)
+	cross := make([]int, len(c08ScaledKinds))
+	for k := range cross {
+		lo, hi := 1, 40000
+		for lo < hi {
+			mid := (lo + hi) / 2
+			st, _, _ := c08Scaled(k, mid)
+			d := 0
+			if p := guard(func() { d, _ = gtab.VerifSubtableLen(st) }); p != "" {
+				d = 1 << 20
+			}
+			if d > 0xFFFF {
+				hi = mid
+			} else {
+				lo = mid + 1
+			}
+		}
+		cross[k] = lo
+	}
+	r.Explore(explore.Config{Name: "C08.subtable-limit", Deadline: r.PartDeadline(0.7)},
+		fmt.Sprintf("%d subtable kinds (GSUB 1.2, 2.1, 3.1, 4.1 in two shapes, 8.1, all six context forms, GPOS 1.2, 2.1, 2.2, 3.1, 4.1, 6.1) with every entry count in a window of +-%d around the count at which the encoded subtable crosses 64 KiB (where the 16-bit offsets inside the subtable overflow one after the other): the encoder refuses loudly, or the table comes back intact", len(c08ScaledKinds), window),
+		func(c *explore.Ctx) {
+			k := c.Choose(len(c08ScaledKinds), "subtable kind")
+			n := cross[k] - window + c.Choose(2*window+1, "entries relative to the crossing")
+			if n < 1 {
+				c.Skip("no entries")
+			}
+			st, typ, gpos := c08Scaled(k, n)
+			tp := gtab.Type(gtab.TypeGsub)
+			if gpos {
+				tp = gtab.TypeGpos
+			}
+			desc := fmt.Sprintf("%s with %d entries (the size crosses 0xFFFF at %d entries)", c08ScaledKinds[k], n, cross[k])
+			c.Sample(func() any { return desc })
+			c.Nontrivial()
+			ll := gtab.LookupList{gen.MakeLookup(typ, gen.Flags[0], []gtab.Subtable{st})}
+			if (typ == 5 || typ == 6) && !gpos {
+				ll = append(ll, gen.MakeLookup(1, gen.Flags[0], gen.GsubSimple[0].Sub()))
+			}
+			c08RoundTripOnce(c, "subtable limit: "+c08ScaledKinds[k], c08Info(tp, ll), tp, desc)
+		})
+}
+
 func c08Sizes(r *run.Run) {
 	maxLookups := 2
 	if !r.Quick() {
@@ -622,6 +846,7 @@ func init() {
 		c08RangeLimits(r)
 		c08Gdef(r)
 		c08Lookups(r)
+		c08SubtableLimit(r)
 		c08Sizes(r)
 	})
 }
